@@ -356,6 +356,8 @@ pub struct Fault {
     pub kind: char,
 }
 fn faults_tok(fs: &[Fault]) -> String {
+    // `Z` (a slow answer) is no fault for the model
+    let fs: Vec<&Fault> = fs.iter().filter(|f| f.kind != 'Z').collect();
     if fs.is_empty() {
         return ".".into();
     }
@@ -1325,7 +1327,14 @@ pub fn gen_case(family: &str, seed: u64, idx: usize) -> Case {
                 items.push(item(&format!("p{i}"), e));
             }
             rng.shuffle(&mut items);
-            if idx % 5 == 2 {
+            if idx % 20 == 3 {
+                // a SLOW server (one answer takes seconds — 62 s in the thorough tier): nothing is wrong,
+                // every candidate must still be evaluated; the model sees no fault at all
+                let f = vec![Fault { sel: FSel::Idx(0), kind: 'Z' }];
+                for it in items.iter_mut() {
+                    it.faults = f.clone();
+                }
+            } else if idx % 5 == 2 {
                 // the server turns bad at the k-th query of the run: everything from then on is answered
                 // with a line that is no IRRd response (model-free verdict, see main)
                 let f = vec![Fault { sel: FSel::Idx(rng.below(6)), kind: 'X' }];
@@ -2321,7 +2330,9 @@ pub fn main(opts: &Opts) {
     // is reported as that case; its thread is abandoned
     let meta: Vec<(Case, Vec<String>, Vec<Pfx>)> =
         jobs.iter().map(|j| (j.case.clone(), j.texts.clone(), j.probes.clone())).collect();
-    let results = run_pool_watchdog_opt(jobs, 8, std::time::Duration::from_secs(60), 4, move |j: Job| {
+    crate::fakeirrd::SLOW_MS.store(if opts.thorough() { 62_000 } else { 3_000 }, std::sync::atomic::Ordering::Relaxed);
+    let limit = std::time::Duration::from_secs(if opts.thorough() { 240 } else { 60 });
+    let results = run_pool_watchdog_opt(jobs, 8, limit, 4, move |j: Job| {
         if j.bad_model {
             return (
                 j.case,
